@@ -3,7 +3,7 @@ from __future__ import annotations
 
 ID = "C04"
 LEVEL = "other"
-CONTRACT_MODULES = ["contracts.params", "contracts.textsplice", "contracts.auth", "contracts.transport"]
+CONTRACT_MODULES = ["contracts.params", "contracts.textsplice", "contracts.auth", "contracts.transport", "contracts.serializer"]
 EXPLANATION = ("For every operation of the shape corpus the EMITTED endpoint method is verified by pyvc against a contract computed from the raw "
                "OpenAPI document by an oracle written from the statement: exactly one transport.request call on every exit that follows it; "
                "method literal; URL = base_url + path with every {p} replaced by the serialised argument; query and header maps = exactly the "
